@@ -12,9 +12,12 @@ ACTIONS = ["MC_RCLDesign.New", "MC_RCLDesign.Push"]
 def mc(prop, tier):
     q = tier == "quick"
     if prop == "C09":
-        return [("MC_RCLDesign", "MC_RCLDesign_small.cfg" if q else "MC_RCLDesign_small5.cfg", ACTIONS),
+        runs = [("MC_RCLDesign", "MC_RCLDesign_small.cfg" if q else "MC_RCLDesign_small5.cfg", ACTIONS),
                 ("MC_RCLDesign", "MC_RCLDesign_long.cfg", ACTIONS),
                 ("MC_RCLDesign", "MC_RCLDesign_code8.cfg", ACTIONS)]
+        if not q:
+            runs.append(("MC_RCLDesign", "MC_RCLDesign_abc.cfg", ACTIONS))
+        return runs
     if prop == "C12":
         # GetOK / IterOK with Over: every index and start position up to 4 (6) past the end
         return [("MC_RCLDesign", "MC_RCLDesign_small3.cfg" if q else "MC_RCLDesign_small.cfg", ACTIONS)]
@@ -24,7 +27,10 @@ def mc(prop, tier):
 def exports(prop, tier):
     q = tier == "quick"
     if prop == "C09":
-        return [("tlc", "MC_RCLDesign", "MC_RCLDesign_export3.cfg" if q else "MC_RCLDesign_export4.cfg")]
+        ex = [("tlc", "MC_RCLDesign", "MC_RCLDesign_export4.cfg")]
+        if not q:
+            ex.append(("tlc-abc", "MC_RCLDesign", "MC_RCLDesign_export_abc.cfg"))
+        return ex
     return []
 
 
@@ -33,18 +39,18 @@ def episodes(prop, tier, seed):
     out = {}
     if prop == "C09":
         out["recipes"] = (gen_rcl.recipe_episodes(seed, thorough=not q), "verif")
-        out["rand"] = (gen_rcl.random_episodes(seed, 500 if q else 6000), "verif")
+        out["rand"] = (gen_rcl.random_episodes(seed, 500 if q else 12000), "verif")
         if not q:
-            out["rand-release"] = (gen_rcl.random_episodes(seed + 1, 2500) + gen_rcl.recipe_episodes(seed + 1), "release")
+            out["rand-release"] = (gen_rcl.random_episodes(seed + 1, 5000) + gen_rcl.recipe_episodes(seed + 1), "release")
             out["huge-rear"] = (gen_rcl.huge_rear_episodes(seed), "release")
     if prop == "C12":
-        out["ood"] = (gen_rcl.ood_episodes(seed, 400 if q else 5000), "verif")
+        out["ood"] = (gen_rcl.ood_episodes(seed, 400 if q else 15000), "verif")
         if not q:
-            out["ood-release"] = (gen_rcl.ood_episodes(seed + 1, 2500), "release")
+            out["ood-release"] = (gen_rcl.ood_episodes(seed + 1, 7500), "release")
     if prop == "C15":
-        out["reload"] = (gen_rcl.reload_episodes(seed, 240 if q else 3000), "verif")
+        out["reload"] = (gen_rcl.reload_episodes(seed, 240 if q else 9000), "verif")
         if not q:
-            out["reload-release"] = (gen_rcl.reload_episodes(seed + 1, 1200), "release")
+            out["reload-release"] = (gen_rcl.reload_episodes(seed + 1, 3600), "release")
     return out
 
 
